@@ -236,7 +236,7 @@ def main(argv=None):
             "assumptions": list(meta.get("assumptions", [])),
             "coverage": {
                 "states": max(agg["paths"] + agg["cells"], 0),
-                "transitions": agg["queries"],
+                "transitions": agg["queries"] + agg["obligations"],
                 "traces_validated_against_impl": agg["validated"],
                 "samples": _jsonable(samples) or [{"note": "no obligations"}],
                 "obligations": agg["obligations"],
